@@ -185,7 +185,8 @@ class Recorder:
         if st is not None:
             for path, node in st.depth():
                 v = node.value
-                if v is obj or getattr(v, '_verif_wraps', None) is obj:
+                mp = getattr(v, 'multiprocess', None)
+                if v is obj or (mp is not None and getattr(mp, 'party', None) is obj):
                     found = tuple(path)
                     break
         cache[key] = found
@@ -213,7 +214,7 @@ class Recorder:
             v = node.value
             if _is_process(v):
                 # identity of the process object held by the node
-                out[('<P>',) + tuple(path)] = id(getattr(v, '_verif_wraps', v))
+                out[('<P>',) + tuple(path)] = id(v)
         return out
 
     # -- log ------------------------------------------------------------
